@@ -12,6 +12,7 @@ import (
 	"io"
 	"net/http"
 	"os"
+	"regexp"
 	"runtime"
 	"strings"
 	"sync"
@@ -92,6 +93,7 @@ type attemptRec struct {
 
 type batchRec struct {
 	idx       int
+	tag       string // "f<k>" when the payload names gauges f<k>_g<i> (sequence phase: which flush the batch belongs to)
 	attempts  int
 	failures  int
 	delivered bool
@@ -130,6 +132,9 @@ func (t *transportSpy) begin(key string, bodyLen int) (b *batchRec, rec attemptR
 	b = t.batches[key]
 	if b == nil {
 		b = &batchRec{idx: len(t.order)}
+		if i := strings.LastIndex(key, "/"); i >= 0 {
+			b.tag = key[i+1:]
+		}
 		t.batches[key] = b
 		t.order = append(t.order, b)
 	}
@@ -185,6 +190,21 @@ func (t *transportSpy) summary() spySummary {
 	return s
 }
 
+// tagged reports the batches observed for one flush of a sequence and how many of them never got a 2xx.
+func (t *transportSpy) tagged(tag string) (batches, undelivered int) {
+	t.mu.Lock()
+	defer t.mu.Unlock()
+	for _, b := range t.order {
+		if b.tag == tag {
+			batches++
+			if !b.delivered {
+				undelivered++
+			}
+		}
+	}
+	return
+}
+
 func (t *transportSpy) okAfter(g int) bool {
 	t.mu.Lock()
 	defer t.mu.Unlock()
@@ -200,6 +220,8 @@ func (t *transportSpy) counter() int {
 // canonical identifies the batch a request belongs to. OTLP re-sends one Request whose body is drained
 // after the first attempt and New Relic (insights/metrics) gzips its payload once more per attempt, so
 // the identity is the content of GetBody (the original payload), gunzipped as often as possible.
+var flushTagRe = regexp.MustCompile(`f\d+_g`)
+
 func canonical(req *http.Request) (key string, bodyLen int) {
 	var raw []byte
 	if req.Body != nil {
@@ -228,7 +250,11 @@ func canonical(req *http.Request) (key string, bodyLen int) {
 		orig = d
 	}
 	sum := sha1.Sum(orig)
-	return fmt.Sprintf("%x", sum[:10]), bodyLen
+	key = fmt.Sprintf("%x", sum[:10])
+	if m := flushTagRe.Find(orig); m != nil {
+		key += "/" + string(m[:len(m)-2])
+	}
+	return key, bodyLen
 }
 
 func mkResp(req *http.Request, status int, body string, hdr map[string]string) *http.Response {
@@ -283,7 +309,13 @@ func (t *transportSpy) RoundTrip(req *http.Request) (*http.Response, error) {
 func (t *transportSpy) PutMetricData(ctx context.Context, in *awscw.PutMetricDataInput, _ ...func(*awscw.Options)) (*awscw.PutMetricDataOutput, error) {
 	t.inflight.Add(1)
 	defer t.inflight.Add(-1)
-	b, rec := t.begin(fmt.Sprintf("call-%d", t.counter()), len(in.MetricData))
+	key := fmt.Sprintf("call-%d", t.counter())
+	if len(in.MetricData) > 0 && in.MetricData[0].MetricName != nil {
+		if m := flushTagRe.FindString(*in.MetricData[0].MetricName); m != "" {
+			key += "/" + m[:len(m)-2]
+		}
+	}
+	b, rec := t.begin(key, len(in.MetricData))
 	if t.c.Cancel == "attempt" && rec.G == t.c.N {
 		t.cancel()
 	}
@@ -503,14 +535,20 @@ func runHTTPOnce(r *mon.Run, c httpCase, payload replayCase, watch time.Duration
 	// grace period, bounded by logical quiescence: the call has returned, no request in flight, no pending
 	// back-off timer, the goroutines of this flush are gone; then cancel the context and look again
 	quiet := func() bool { return isReturned() && spy.inflight.Load() == 0 && mock.Len() == 0 }
+	// a family whose flush goroutines have repeatedly not ended (they leak) is no longer waited for: the
+	// goroutine criterion only bounds the grace period, it is not a verdict
+	fam := family(c.Backend)
+	leaky := unsettledCount(fam) >= 4
+	goroutinesGone := func() bool { return leaky || runtime.NumGoroutine() <= base+1 }
 	if !res.never {
-		if !mon.WaitUntil(settleWatch, func() bool { return quiet() && runtime.NumGoroutine() <= base+1 }) {
+		if !mon.WaitUntil(settleWatch, func() bool { return quiet() && goroutinesGone() }) {
 			res.unsettled = true
 		}
 	}
 	cancel()
-	if !mon.WaitUntil(settleWatch, func() bool { return spy.inflight.Load() == 0 && runtime.NumGoroutine() <= base+1 }) {
+	if !mon.WaitUntil(settleWatch, func() bool { return spy.inflight.Load() == 0 && goroutinesGone() }) {
 		res.unsettled = true
+		unsettledSeen(fam)
 		if os.Getenv("C16_DEBUG") != "" {
 			buf := make([]byte, 1<<20)
 			fmt.Fprintf(os.Stderr, "UNSETTLED %s base=%d now=%d\n%s\n", js(c), base, runtime.NumGoroutine(), buf[:runtime.Stack(buf, true)])
@@ -521,6 +559,20 @@ func runHTTPOnce(r *mon.Run, c httpCase, payload replayCase, watch time.Duration
 	res.errs = p.first()
 	res.sum = spy.summary()
 	return res
+}
+
+var unsettled sync.Map // family -> *atomic.Int64
+
+func unsettledCount(fam string) int64 {
+	if v, ok := unsettled.Load(fam); ok {
+		return v.(*atomic.Int64).Load()
+	}
+	return 0
+}
+
+func unsettledSeen(fam string) {
+	v, _ := unsettled.LoadOrStore(fam, new(atomic.Int64))
+	v.(*atomic.Int64).Add(1)
 }
 
 func batchClass(n int) string {
